@@ -245,3 +245,20 @@ def run(chk):
                "'%s' feeds %s" % (k, fq.split('.')[-1]),
                'the %s denotation is turned into %s, which %s does not read'
                % (word, a, fq.split('.')[-1]))
+  # the annotation is generated from the rule as written, before the
+  # rewrites that split and rename heads
+  pf = FnView(repo, 'parse.ParseFile')
+  afd_calls = pf.calls('parse.AnnotationsFromDenotations')
+  rewrites = [(n, c) for n, c in pf.all_calls() if call_tail(c) == 'Rewrite']
+  chk.ob('C18-R4', bool(afd_calls) and bool(rewrites) and not any(
+      an in pf.cfg.reachable(rn) for an, _ in afd_calls for rn, _ in rewrites), None,
+         'order_by / limit denotations become annotations before the DNF / multi-body rewrites',
+         'AnnotationsFromDenotations runs after a rewrite: the multi-body '
+         'aggregation rewrite renames the head to <P>_MultBodyAggAux and keeps '
+         'the denotation keys, so the annotation lands on the auxiliary predicate',
+         fi=pf.fi)
+  for n, c in afd_calls:
+    src = pf.assigned_from(arg_name(c, 0) or '')
+    ok = any(isinstance(x, ast.Call) and call_tail(x) == 'ParseRule' for x in src)
+    chk.ob('C18-R4', ok, None, 'annotations are derived from the rule ParseRule just returned',
+           'AnnotationsFromDenotations is applied to %s' % norm(c, 60), fi=pf.fi, node=c)
